@@ -266,6 +266,43 @@ func (k divKind) String() string {
 
 func divFormOf(v ssa.Value) (kind divKind, num, den ssa.Value) {
 	v = stripIntConv(v)
+	// pieceCount(psize, length): a function of the module whose only return yields a division form of its parameters
+	if c, ok := v.(*ssa.Call); ok && !c.Call.IsInvoke() {
+		if h := c.Call.StaticCallee(); h != nil && h.Blocks != nil && strings.HasPrefix(funcPkgPath(h), modPath) && h != c.Parent() && len(c.Call.Args) == len(h.Params) {
+			rets := returnsOf(h)
+			if len(rets) == 1 {
+				if res := retResults(rets[0]); len(res) == 1 {
+					k, n, d := divFormOf(res[0])
+					back := func(x ssa.Value) ssa.Value {
+						if x == nil {
+							return nil
+						}
+						y := x
+						for {
+							switch z := y.(type) {
+							case *ssa.Convert:
+								y = z.X
+								continue
+							case *ssa.ChangeType:
+								y = z.X
+								continue
+							}
+							break
+						}
+						for i, pa := range h.Params {
+							if ssa.Value(pa) == y {
+								return c.Call.Args[i]
+							}
+						}
+						return x
+					}
+					if k != divOther {
+						return k, back(n), back(d)
+					}
+				}
+			}
+		}
+	}
 	// n := a / K; if a % K > 0 { n++ }  — the floor, plus one exactly when there is a remainder: the ceiling
 	if ph, ok := v.(*ssa.Phi); ok && len(ph.Edges) == 2 {
 		for i := 0; i < 2; i++ {
